@@ -132,7 +132,7 @@ func runLimited(h []Letter, bars []*colarspb.BatchArrowRecords, limit uint64, us
 	healthy := true
 	for i, l := range h {
 		got, err, pan := decodeCanon(c, l, bars[i])
-		if pan != "" && !healthy {
+		if pan != "" && !healthy && uncheckedIndexing(pan) {
 			// Not judged: an earlier batch of this stream was refused, its unread
 			// payloads left sub-streams without dictionary entries that this batch
 			// indexes (same territory as spliced IPC streams, see DESIGN.md C14).
